@@ -377,7 +377,8 @@ def l163(nroutes):
             for r in cands[:idx]:
                 check(SxBool(z3.Not(z3.InRe(s, z_must(parts_of[r.pattern])))), 'an earlier registered matching route would have been chosen')
         # dispatch: 404 exactly when nothing matches
-        req = Req(method, path)
+        # the real Request object, as RequestFactory.process builds it: whatever its constructor does to the path is part of routing
+        req = ws.Request(('10.0.0.1', 1), method, path, {}, '', {}, None)
         ws_request_response = ws.request_response
         try:
             ws.request_response = lambda endpt, request: ('ROUTED', endpt)
@@ -422,7 +423,7 @@ def replay_l163(cfg, m):
         try:
             saved0 = c.request_response
             c.request_response = lambda endpt, request: ('ROUTED', endpt)
-            r.dispatch(Req(method, path))
+            r.dispatch(c.Request(('10.0.0.1', 1), method, path, {}, '', {}, None))
         except Exception:
             pass
         finally:
@@ -445,7 +446,7 @@ def replay_l163(cfg, m):
     try:
         c.request_response = lambda endpt, request: ('ROUTED', endpt)
         try:
-            resp = r.dispatch(Req(method, path))
+            resp = r.dispatch(c.Request(('10.0.0.1', 1), method, path, {}, '', {}, None))
         except Exception as ex:
             return True, 'dispatch raised %r for %s %r' % (ex, method, path)
     finally:
